@@ -334,6 +334,15 @@ func ssaGoodCell(r *rng, kind byte) string {
 	return ssaCellOfKind(r, kind) // booleans and strings: every cell is accepted
 }
 
+// the integer columns of an event row have no "no value" spelling
+func ssaGoodEventInt(r *rng) string {
+	for {
+		if s := ssaGoodCell(r, 'i'); s != "" {
+			return s
+		}
+	}
+}
+
 func ssaCellOfKind(r *rng, kind byte) string {
 	switch kind {
 	case 'b':
@@ -546,7 +555,9 @@ func randSsaEventRow(r *rng) (string, string, []string) {
 		}
 		if level == 3 || (level == 2 && r.chance(1, 6)) {
 			cells = append(cells, ssaEventCell(r, k))
-		} else if k == 'i' || k == 't' {
+		} else if k == 'i' {
+			cells = append(cells, ssaGoodEventInt(r))
+		} else if k == 't' {
 			cells = append(cells, ssaGoodCell(r, k))
 		} else {
 			cells = append(cells, ssaEventCell(r, k))
@@ -745,7 +756,7 @@ var ssaSectionLines = []string{"[Events]", "[V4+ Styles]", "[V4 Styles]", "[V4 S
 	"[Fonts]", "[Graphics]", "[Kevents]", "[Events", "Events]", "[Events];", "[v4+ styles]", "[V4+  Styles]", "[Script\u00a0Info]", "[scrıpt info]", "[SCRIPT INFO]", "[[Events]]", "[Events]]"}
 var ssaColonLines = []string{"Foo: bar", ": nothing", "a:b:c", ":", "Title:", "Title: second title", "PlayResX: x", "PlayResX: 12", "PlayResY: +7", "PlayDepth: -5", "PlayDepth: 99999999999999999999", "Timer: 1e2",
 	"Timer: 100,0000", "Timer: 1.5.5", "Timer: 1,5,5", "Timer: -0", "Timer: ", "Timer: 100.0000", "Timer: 12,3456", "Timer : 50", "timer: x", "ScriptType: v4.00+", "ScriptType: v4.00", "Format: Name", "Format:", "Format: ,",
-	"Format: Text", "Style: a,b", "Dialogue: 0,0:00:00.00", "Dialogue: x", "Comment: whatever, it is", "Collisions:Normal", "\u00a0Title\u00a0:\u00a0nb\u00a0", "WrapStyle: 0", "Synch Point:1", "Original Script: me: myself"}
+	"Format: Text", "Style: a,b", "Dialogue: 0,0:00:00.00", "Dialogue: x", "Comment: whatever, it is", "Collisions:Normal", "format: Name, Bold", "FORMAT: Text", "Format : Start, End, Text", "\u00a0Title\u00a0:\u00a0nb\u00a0", "WrapStyle: 0", "Synch Point:1", "Original Script: me: myself"}
 
 // mutateSsaDoc applies 1..3 line- or byte-level mutations to a rendered document
 func mutateSsaDoc(R *runner, r *rng, doc string) string {
@@ -987,6 +998,110 @@ func mutateSsaDoc(R *runner, r *rng, doc string) string {
 	return out
 }
 
+// line soup: sections, Format lines and rows in random order (rows follow the last Format most of the time)
+func randSsaSoup(r *rng) string {
+	var L []string
+	var cols []string
+	sect := ""
+	for n := 3 + r.intn(24); n > 0; n-- {
+		switch r.intn(12) {
+		case 0, 1:
+			h := r.pick("[Events]", "[V4+ Styles]", "[V4 Styles]", "[Script Info]", "[Events]", "[V4 Styles+]", ssaSectionLines[r.intn(len(ssaSectionLines))])
+			L = append(L, h)
+			switch strings.ToLower(h) {
+			case "[events]":
+				sect, cols = "e", nil
+			case "[v4+ styles]", "[v4 styles]", "[v4 styles+]":
+				sect, cols = "s", nil
+			case "[script info]":
+				sect = "i"
+			default:
+				if strings.HasPrefix(h, "[") && strings.HasSuffix(h, "]") {
+					sect = "u"
+				}
+			}
+			if (sect == "e" || sect == "s") && cols == nil && r.chance(5, 6) {
+				if sect == "s" {
+					cols = randSsaFormat(r, ssaStyleNamesAll, []string{"TertiaryColour"})
+				} else {
+					cols = randSsaFormat(r, ssaEventNamesAll, []string{"Text", "Style", "Start"})
+				}
+				L = append(L, "Format: "+strings.Join(cols, ", "))
+			}
+		case 2, 3:
+			var nc []string
+			if sect == "s" || (sect != "e" && r.chance(1, 2)) {
+				nc = randSsaFormat(r, ssaStyleNamesAll, []string{"TertiaryColour"})
+			} else {
+				nc = randSsaFormat(r, ssaEventNamesAll, []string{"Text", "Style", "Start"})
+			}
+			L = append(L, r.pick("Format: ", "Format:", "Format : ")+strings.Join(nc, r.pick(", ", ",", " , ")))
+			if sect == "e" || sect == "s" {
+				cols = append(nc, cols[min(len(nc), len(cols)):]...) // a Format line overlays the previous one
+			}
+		case 4, 5, 6, 7, 8:
+			if (sect == "e" || sect == "s") && len(cols) == 0 && r.chance(7, 8) {
+				continue // a row before any Format is an error: rarely
+			}
+			var cells []string
+			level := r.intn(6) // 5: a hostile cell somewhere
+			for _, c := range cols {
+				k := ssaStyleColKind(c)
+				if sect == "e" {
+					k = ssaEventColKind(c)
+				}
+				switch {
+				case k == '?':
+					cells = append(cells, r.pick("", "x", "1", "a b"))
+				case level == 5 && r.chance(1, 4):
+					cells = append(cells, ssaEventCell(r, k))
+				case k == 'i' && sect == "e":
+					cells = append(cells, ssaGoodEventInt(r))
+				case k == 'i' || k == 't' || k == 'c' || k == 'f':
+					cells = append(cells, ssaGoodCell(r, k))
+				default:
+					cells = append(cells, ssaEventCell(r, k))
+				}
+			}
+			switch r.intn(16) {
+			case 0:
+				cells = append(cells, "more")
+			case 1:
+				if len(cells) > 0 {
+					cells = cells[:len(cells)-1]
+				}
+			}
+			h := "Style"
+			if sect == "e" || (sect != "s" && r.chance(1, 2)) {
+				h = r.pick("Dialogue", "Dialogue", "Dialogue", "Comment", "Movie", "dialogue")
+			}
+			L = append(L, h+r.pick(": ", ":", " : ")+strings.Join(cells, ","))
+		case 9:
+			if (sect == "e" || sect == "s") && r.chance(7, 8) {
+				continue // any "header: content" line of these sections is a row
+			}
+			L = append(L, ssaColonLines[r.intn(len(ssaColonLines))])
+		case 10:
+			L = append(L, r.pick("; a comment", ";", "; Format: Name", "", "  ", "no colon here", "\xef\xbb\xbf", "\u00a0", "garbage"))
+		default:
+			if (sect == "e" || sect == "s") && r.chance(7, 8) {
+				continue
+			}
+			k := ssaInfoStrings[r.intn(len(ssaInfoStrings))]
+			L = append(L, k+r.pick(": ", ":", " : ")+r.pick("value", "a: b", "v4.00+", "v4.00", "", "x,y"))
+		}
+	}
+	eol := r.pick("\n", "\r\n", "\r")
+	doc := strings.Join(L, eol)
+	if r.chance(3, 4) {
+		doc += eol
+	}
+	if r.chance(1, 5) {
+		doc = "\xef\xbb\xbf" + doc
+	}
+	return doc
+}
+
 func ssaCornerDocs() []string {
 	head := "[Script Info]\nScriptType: v4.00+\n\n[V4+ Styles]\nFormat: Name, Fontname, Bold\nStyle: Default,Arial,-1\nStyle: *x,Tahoma,0\nStyle: Name,Arial,1\n\n[Events]\nFormat: Layer, Start, End, Style, Name, MarginL, MarginR, MarginV, Effect, Text\n"
 	ev := func(style, text string) string {
@@ -1018,6 +1133,12 @@ func ssaCornerDocs() []string {
 		"[V4 Styles]\nFormat: Name, Bold\n[Script Info]\nTitle: t\n[Unknown]\nfoo: bar\nStyle: a,1\n",
 		"[V4 Styles]\nFormat: Name, Bold\n[Events]\nDialogue: a,1\n",
 		"[Script Info]\nFormat: Name\nStyle: x\nDialogue: y\nTimer: 100,0000\nPlayResX: 640\nPlayResX: 320\n;c1\n; c2 \n;\n",
+		"[V4 Styles]\nFormat: Name, Bold\nStyle: a,1\n[V4+ Styles]\nStyle: b,0\n",
+		"[V4 Styles]\nFormat: Name, Bold\nStyle: a,1\n[V4+ Styles]\nFormat: Bold, Name, Italic\nStyle: 0,a,1\nStyle: 1,b,\n[Events]\nFormat: Style, Style, Start, End, Text\nDialogue: a,b,0:00:01.00,0:00:02.00,x\n",
+		// longer than the scanner's 4096-byte buffer (lines of moderate length: the model is quadratic in the line length)
+		"[Events]\nFormat: Start, End, Text\n" + strings.Repeat("Dialogue: 0:00:01.00,0:00:02.00,"+strings.Repeat("long text ", 45)+"\n", 10) + "Dialogue: 0:00:03.00,0:00:04.00,after\n",
+		"[Events]\nFormat: Start, End, Text\n" + strings.Repeat("Dialogue: 0:00:01.00,0:00:02.00,"+strings.Repeat("{\\b1}x", 60)+"\\N"+strings.Repeat(" ", 100)+"\n", 9),
+		"[Script Info]\nTitle: " + strings.Repeat("t", 1353) + "\nCollisions: " + strings.Repeat("c", 1353) + "\nWrapStyle: " + strings.Repeat("w", 1337) + "\n; comment right after the 4096-byte buffer\nPlayResX: 12\n",
 		"[Script Info]\nTimer: 1e2\n", "[Script Info]\nTimer: x\n", "[Script Info]\nTimer:\n", "[Script Info]\nPlayResX:\n", "[Script Info]\nPlayResY: 1.5\n", "[Script Info]\nTimer: 0,001\n", "[Script Info]\nTimer: -12,5\n",
 		"[Scrİpt Info]\nTitle: dotted I\n", "[Kevents]\nFormat: Text\n", "[EVENTS]\nFormat: Text\nDialogue: x\n", "[eKents]\nTitle: y\n", "[scrıpt info]\nTitle: dotless i\n",
 		"[V4 Styles+]\nFormat: Name, TertiaryColour, OutlineColour\nStyle: a,&H11223344,\nStyle: b,,&H11223344\nStyle: c,1,2\n",
@@ -1273,6 +1394,21 @@ func suiteSsaModel(R *runner, r *rng) {
 		R.add(o)
 		if s != nil && c%4 == 0 {
 			if w := ssaWriteModelObs(r, s, "ssa.writem", map[string]interface{}{"kind": "value returned by the reader (mutated document)", "doc": doc}); w != nil {
+				R.count("ssa.writem.from_reader")
+				R.add(w)
+			}
+		}
+	}
+	for c := 0; c < N; c++ { // (c') line soup
+		doc := randSsaSoup(r)
+		o, s := ssaReadModelObs(doc, "ssa.readm.soup", map[string]interface{}{"kind": "line soup"})
+		R.count("ssa.readm.soup")
+		if o.Impl == "1" {
+			R.count("ssa.readm.soup.rejected")
+		}
+		R.add(o)
+		if s != nil && c%4 == 0 {
+			if w := ssaWriteModelObs(r, s, "ssa.writem", map[string]interface{}{"kind": "value returned by the reader (line soup)", "doc": doc}); w != nil {
 				R.count("ssa.writem.from_reader")
 				R.add(w)
 			}
